@@ -23,9 +23,16 @@ const (
 	Hour        = rtime.Hour
 )
 
-func Now() Time             { return rtime.Now() }
-func Since(t Time) Duration { return rtime.Since(t) }
-func Until(t Time) Duration { return rtime.Until(t) }
+// The clock is the real one plus an offset that only the harness moves: Advance lets an
+// execution contain "a long idle period" (hours pass between two operations) without
+// waiting for it. Nothing in the explored executions depends on the real part.
+var offset Duration
+
+func Advance(d Duration) { offset += d }
+
+func Now() Time             { return rtime.Now().Add(offset) }
+func Since(t Time) Duration { return Now().Sub(t) }
+func Until(t Time) Duration { return t.Sub(Now()) }
 func Sleep(d Duration) {
 	if vrt.Active() {
 		vrt.Step("time.sleep")
@@ -97,7 +104,7 @@ func FireAll() int {
 }
 
 // ResetTickers forgets controlled tickers (between executions).
-func ResetTickers() { tickers = nil }
+func ResetTickers() { tickers = nil; offset = 0 }
 
 // After returns a shim channel: in pass-through mode it receives the real timer's
 // value; under the scheduler it fires with the next FireAll.
